@@ -139,6 +139,9 @@ type Solver struct {
 	totalMs  int64
 	bySolver map[string]int
 	samples  []string
+	// retryTimeouts: give timed-out obligations a second, sequential chance (quick and thorough checks, not mutant runs)
+	retryTimeouts bool
+	retried       int
 }
 
 type prepared struct {
@@ -323,6 +326,60 @@ func (s *Solver) run(obls []*Obligation) {
 		}(n, byName[n])
 	}
 	wg.Wait()
+	s.secondChance(names, byName)
+}
+
+// secondChance: an obligation none of whose instances was refuted with a model but one of whose instances ran out of
+// time is tried again, its open instances one after the other on an otherwise quiet solver pool and with three times the
+// time. A timeout on a loaded machine is no evidence of anything (a 5 s query was seen to time out at 25 s while four
+// other checks were running); a `sat` or `unknown` answer is not retried. Bounded: at most 12 instances per run.
+func (s *Solver) secondChance(names []string, byName map[string][]*Obligation) {
+	if !s.retryTimeouts {
+		return
+	}
+	budget := 12
+	for _, n := range names {
+		all := byName[n]
+		timedOut, refuted := false, false
+		for _, o := range all {
+			switch o.Result {
+			case "timeout":
+				timedOut = true
+			case "sat", "unknown", "error":
+				refuted = true
+			}
+		}
+		if !timedOut || refuted {
+			continue
+		}
+		save := s.timeoutS
+		s.timeoutS = 3 * save
+		for _, o := range all {
+			if o.Result != "timeout" && o.Result != "not-run" {
+				continue
+			}
+			if budget == 0 {
+				break
+			}
+			budget--
+			if i := strings.Index(o.Src, "  [failing conjunct"); i >= 0 {
+				o.Src = o.Src[:i]
+			}
+			o.Result, o.Unsupp, o.Model, o.FailSMT, o.Solver = "", "", "", "", ""
+			s.renderMu.Lock()
+			rp := s.prepare(o)
+			s.renderMu.Unlock()
+			s.mu.Lock()
+			s.retried++
+			id := 900000 + s.retried
+			s.mu.Unlock()
+			s.discharge(rp, id)
+			if o.Result != "unsat" {
+				break
+			}
+		}
+		s.timeoutS = save
+	}
 }
 
 // satCheck answers whether the conjunction is satisfiable (vacuity guards).
